@@ -228,6 +228,14 @@ def part_header(sh, res):
     bnames = ['jkey', 'jval']
     A = [['k', 'm', 'c'], ['m', 'k', 'd']]
     B = [['k', 'p'], ['m', 'q']]
+    if sh.get('wide'):
+        # two-digit field numbers over 12-column tables
+        names = ['w%d' % i for i in range(1, 13)]
+        bnames = ['j%d' % i for i in range(1, 13)]
+        A = [['k'] + ['v%d' % i for i in range(2, 13)]]
+        B = [['k'] + ['u%d' % i for i in range(2, 13)]]
+        F_ = lambda t, i, *st: ('f', t, i) + tuple(st)
+        items = [F_('a', 10), F_('a', 12), F_('a', 11, 'a[N]'), F_('b', 10), F_('b', 12, 'a[N]'), F_('a', 2), F_('a', 13), ('star', 'b')]
     cases, meta = [], []
     for n in range(1, sh['maxn'] + 1):
         for tup in itertools.product(items, repeat=n):
@@ -297,6 +305,7 @@ def main(tier, seed):
         shards.append({'part': 'cross', 'o': o, 'cfg': cfg, 'pair_limit': 200 if T else 40})
     shards.append({'part': 'header', 'seed': seed, 'maxn': 2})
     shards.append({'part': 'header', 'seed': seed, 'maxn': 2, 'nasty': True})
+    shards.append({'part': 'header', 'seed': seed, 'maxn': 2, 'wide': True})
     if T:
         shards.append({'part': 'header', 'seed': seed + 1, 'maxn': 2})
     res = core.run_shards('vf.checks.c18', shards)
